@@ -229,11 +229,39 @@ theorem C05_undo_unit {σ : Type} (step : Change → σ → Except Panic σ) (n 
 /-- the same for the model's own loop (`Changeset.undoLoop`, step = `Change.undoOn` on the line buffer):
     `undo 1` pops exactly the top unit -/
 theorem C05_undo_unit_model (S : Segmenter) (U : UData) (u rest redos : List Change) (hu : UndoUnit u) (lb lb' : LB)
+    (level : Nat)
     (hs : undoAll (fun ch lb => ch.undoOn S U lb) u lb = .ok lb') :
-    Changeset.undoLoop S U 1 (u ++ rest) redos lb 0 0 false =
-      .ok (rest, u.reverse ++ redos, lb', u.any (fun c => !c.isMarker)) := by
-  rw [undoLoop_eq_G, C05_undo_unit _ 1 u rest redos hu lb lb' 0 false hs]
-  simp
+    ∃ level', Changeset.undoLoop S U 1 (u ++ rest) redos lb 0 0 false level =
+      .ok (rest, u.reverse ++ redos, lb', u.any (fun c => !c.isMarker), level') := by
+  have h := C05_undo_unit (fun ch lb => ch.undoOn S U lb) 1 u rest redos hu lb lb' 0 false hs
+  simp only [Nat.zero_add, ge_iff_le, Nat.le_refl, if_true, Bool.false_or] at h
+  exact undoLoop_of_G S U 1 _ _ _ _ _ _ level _ h
+
+/-- **Undo keeps the markers balanced** (D38, repaired).  `Changeset::undo` with any repeat count, also
+    when it is requested INSIDE an open group (a vi insert session) and pops that group's `Begin`
+    marker: afterwards `level` is again the number of unmatched `Begin` markers and every `End` has
+    its `Begin`.  So `Balanced` is an invariant of ALL operations of the log (`C05_balanced` for the
+    others), and the `end_` that closes the session later cannot push an unmatched `End`. -/
+theorem C05_undo_balanced (S : Segmenter) (U : UData) (c : Changeset) (h : Balanced c) (lb : LB) (n : Nat)
+    (c' : Changeset) (lb' : LB) (undone : Bool) (hu : c.undo S U lb n = .ok (c', lb', undone)) :
+    Balanced c' := by
+  unfold Changeset.undo at hu
+  cases hr : Changeset.undoLoop S U n c.undos c.redos lb 0 0 false c.level with
+  | error e => rw [hr] at hu; cases hu
+  | ok r =>
+    rw [hr] at hu
+    obtain ⟨us, rs, lb1, u1, lvl⟩ := r
+    simp only [Except.ok.injEq, Prod.mk.injEq] at hu
+    obtain ⟨rfl, _, _⟩ := hu
+    exact undoLoop_balanced S U n c.undos c.redos lb 0 0 false c.level _ (by simpa [Balanced] using h) hr
+
+/-- the D38 scenario on the model, for every segmenter and line: an open group with nothing left in
+    it; Undo pops the marker AND lowers the level, so the `end_` that closes the "session" later adds
+    no unmatched `End` (before the repair the level stayed 1 and `end_` pushed one) -/
+example (S : Segmenter) (U : UData) (lb : LB) (rest : List Change) :
+    ({ level := 1, undos := .begin :: rest, redos := [] } : Changeset).undo S U lb 1 =
+      .ok ({ level := 0, undos := rest, redos := [.begin] }, lb, false) := by
+  simp [Changeset.undo, Changeset.undoLoop]
 
 /-! ### Undo inverts a change, and leaves the line at the replay of the remaining log -/
 
@@ -294,8 +322,9 @@ theorem C05_undo_past_text (S : Segmenter) (U : UData) (c : Changeset) (lb : LB)
         exact key _ _ _ (by rw [h2]; exact hu)
   obtain ⟨⟨rest, redos', lb', undone'⟩, hr⟩ := nofail c.undos c.redos lb 0 0 false hlog
   obtain ⟨p, hp1, hp2, hp3, hp4⟩ := undoLoopG_prefix _ n _ _ _ _ _ _ _ _ _ _ hr
-  refine ⟨{ c with undos := rest, redos := redos' }, lb', undone', ?_, ?_, p, hp1, hp2, hp4⟩
-  · simp only [Changeset.undo, undoLoop_eq_G, hr]
+  obtain ⟨level', hl⟩ := undoLoop_of_G S U n _ _ _ _ _ _ c.level _ hr
+  refine ⟨{ level := level', undos := rest, redos := redos' }, lb', undone', ?_, ?_, p, hp1, hp2, hp4⟩
+  · simp only [Changeset.undo, hl]
   · rw [hp1] at hlog
     obtain ⟨lb'', h1, h2⟩ := undoAll_replay S U p rest t0 lb.buf lb hlog rfl
     rw [hp3] at h1
